@@ -305,7 +305,7 @@ func checkC13(c *Ctx, r *Report) {
 			fr := ev.Explore(get, args)
 			kept := false
 			for _, li := range fr.LiveInstrs() {
-				if call, ok := li.In.(*ssa.Call); ok && li.F == fr {
+				if call, ok := li.In.(*ssa.Call); ok {
 					if b, ok := call.Call.Value.(*ssa.Builtin); ok && b.Name() == "append" && isContentContainer(call.Type()) {
 						kept = true
 					}
